@@ -35,6 +35,57 @@ def expand_message_xmd(msg: bytes, dst: bytes, len_in_bytes: int, hash_name_or_c
     return uniform[:len_in_bytes]
 
 
+def xmd_blocks(msg, dst, n, name):
+    """(b_0, [b_1 .. b_ell]) of RFC 9380 5.3.1, recomputed here for classification and for the search below."""
+    H = lambda d: hashlib.new(name, d).digest()
+    hh = hashlib.new(name)
+    b, bs = hh.digest_size, hh.block_size
+    ell = -(-n // b)
+    dp = dst + bytes([len(dst)])
+    b0 = H(bytes(bs) + msg + n.to_bytes(2, "big") + b"\x00" + dp)
+    out = [H(b0 + b"\x01" + dp)]
+    for i in range(2, ell + 1):
+        out.append(H(bytes(x ^ y for x, y in zip(b0, out[-1])) + bytes([i]) + dp))
+    return b0, out
+
+
+BLOCK_KINDS = ("lead_zero_both", "trail_zero_both", "lead_equal", "trail_equal")
+
+
+def block_class(b0, bl):
+    """Relations between b_0 and the blocks that are XORed with it (b_1 .. b_(ell-1)): both start (end) with a
+    zero byte, or start (end) with the same byte so that the XOR does.  Integer-valued or stripped
+    implementations of strxor are wrong exactly there."""
+    out = set()
+    for bi in bl[:-1]:
+        if b0[0] == 0 and bi[0] == 0:
+            out.add("lead_zero_both")
+        if b0[-1] == 0 and bi[-1] == 0:
+            out.add("trail_zero_both")
+        if b0[0] == bi[0]:
+            out.add("lead_equal")
+        if b0[-1] == bi[-1]:
+            out.add("trail_equal")
+    return out
+
+
+def search_blocks(msg, dst, n, name, kind):
+    """Append a counter to msg until the block sequence falls into class `kind` (a few hundred hashes)."""
+    H = lambda d: hashlib.new(name, d).digest()
+    bs = hashlib.new(name).block_size
+    dp = dst + bytes([len(dst)])
+    tail = n.to_bytes(2, "big") + b"\x00" + dp
+    for c in range(2000000):
+        m2 = msg + c.to_bytes(3, "big")
+        if kind.endswith("zero_both"):
+            b0 = H(bytes(bs) + m2 + tail)
+            if (b0[0] if kind.startswith("lead") else b0[-1]) != 0:
+                continue
+        if kind in block_class(*xmd_blocks(m2, dst, n, name)):
+            return m2
+    raise RuntimeError("no message found for block class " + kind)
+
+
 # ---- 5.2 ------------------------------------------------------------------------------------
 def hash_to_field(msg, count, dst, m, hash_name="sha256", p=P):
     """Returns a list of `count` elements, each a tuple of m ints."""
